@@ -8,6 +8,7 @@ import (
 	"math/rand"
 	"os"
 	"path/filepath"
+	"strings"
 	"testing"
 	"time"
 
@@ -80,7 +81,43 @@ func TestC20Cluster(t *testing.T) {
 				break
 			}
 		}
-		time.Sleep(800 * time.Millisecond)
+		// "once compaction has run": the compaction workers (every 25 ms) and the janitor are given the time they need - until no
+		// fragment's figures have changed for a second (at most 30 s; a slow machine needs more than a busy one) - not a fixed nap
+		signature := func() string {
+			var sb strings.Builder
+			for _, m := range c.Live() {
+				for part := uint64(0); part < 7; part++ {
+					for _, kind := range []partitions.Kind{partitions.PRIMARY, partitions.BACKUP} {
+						if st, ok := m.V.DMap.VerifStats("c20", part, kind); ok {
+							fmt.Fprintf(&sb, "%d/%d/%v:%d,%d,%d;", m.Index, part, kind, st.Allocated, st.Inuse, st.NumTables)
+						}
+					}
+				}
+			}
+			return sb.String()
+		}
+		// ... and, while some fragment is still above the bound, as long as 30 s (the bound is a statement about what holds once
+		// compaction has run; what the trace specification judges is the state after this wait)
+		above := func() bool {
+			for _, m := range c.Live() {
+				for part := uint64(0); part < 7; part++ {
+					for _, kind := range []partitions.Kind{partitions.PRIMARY, partitions.BACKUP} {
+						if st, ok := m.V.DMap.VerifStats("c20", part, kind); ok && 60*st.Allocated > 100*(st.Inuse+3*cf.T+st.NumTables*(maxv+60)) {
+							return true
+						}
+					}
+				}
+			}
+			return false
+		}
+		prev, same := "", 0
+		for deadline := time.Now().Add(30 * time.Second); time.Now().Before(deadline) && (same < 10 || above()); time.Sleep(100 * time.Millisecond) {
+			if s := signature(); s == prev {
+				same++
+			} else {
+				prev, same = s, 0
+			}
+		}
 		now := time.Now().UnixMilli()
 		nfrag := 0
 		for _, m := range c.Live() {
